@@ -493,6 +493,12 @@ def run(ctx, report):
     from .c12 import shared_table_rule
     shared_table_rule(R11, [ctx.mod('ia32_arch'), ctx.mod('parse_ad'), ctx.mod('ia32_att')])
 
+    # ---------------------------------------------------------------- D12 the rendering determines the immediate (shared with C01.D13)
+    R12 = report.rule('C03.D12', 'x86_mn.__str__ evaluated as a whole on every decoder form with an immediate: immediates that differ in a low bit, in bits 3-7 or in the top bit give '
+                      'different texts (a text that folds the immediate cannot assemble back to the bytes)', floor=150)
+    from .c01 import render_immediate_rule
+    render_immediate_rule(ctx, R12)
+
     # ---------------------------------------------------------------- D10 brackets around a sized operand keep the size
     R10 = report.rule('C03.D10', 'a bracket production keeps the PTR size of the operand inside it (the renderer writes `call [WORD PTR 4660]`): grammar actions evaluated', floor=2)
     from ..consteval import Evaluator as _Ev10, NotConst as _NC10, PyRaise as _PR10
